@@ -1119,7 +1119,10 @@ func (p *pipe) Do(ctx context.Context, cmd Completed) (resp RedisResult) {
 		resp = NewErrorResult(p.Error())
 	}
 
-	if left := p.decrWaitsAndIncrRecvs(); state == 0 && left != 0 {
+	// Callers that arrived after this one (waits == 1) have queued their commands and rely on
+	// it to start the background workers, also when it did not do a sync round trip because
+	// Close had already moved the pipe out of state 0: otherwise they wait forever.
+	if left := p.decrWaitsAndIncrRecvs(); waits == 1 && left != 0 {
 		p.background()
 	}
 	return resp
@@ -1229,7 +1232,7 @@ func (p *pipe) DoMulti(ctx context.Context, multi ...Completed) *redisresults {
 			resp.s[i] = err
 		}
 	}
-	if left := p.decrWaitsAndIncrRecvs(); state == 0 && left != 0 {
+	if left := p.decrWaitsAndIncrRecvs(); waits == 1 && left != 0 { // see Do
 		p.background()
 	}
 	return resp
